@@ -64,6 +64,72 @@ func (c01) Plan(tier string, seed int64) []mon.Workload {
 		{Name: "builtin-shapes", N: int64(len(gen.Shapes) * len(c01Subjects) * 4), Exhaustive: true},
 		{Name: "self-containing", N: int64(6 + len(c01Cycles)*len(c01CycleUses))},
 		{Name: "store-consume", N: int64(len(c01Stores) * len(c01StoreVals) * len(c01Consumers)), Exhaustive: true},
+		{Name: "malformed-table", N: int64(len(c01Holes) * len(c08BadV1)), Exhaustive: true},
+		{Name: "malformed-slots", N: n / 40},
+	}
+}
+
+// malformed-*: the property quantifies over scripts ACCEPTED at load time,
+// whatever they contain. These workloads offer the loader calls with a wrong
+// argument count or kind in every syntactic position; a correct loader
+// rejects all of them (that is C08's business, not checked here), but any
+// that it lets through is run, because builtins that trust their checker are
+// where an accepted malformed call turns into a crash.
+var c01Holes = []string{"x = %s", "%s", "if %s {}", "if 0 {} elif %s {}", "for ; %s; { break }", "for %s; ; { break }", "for ; ; %s { break }", "for e in %s {}",
+	"x = [%s]", "x = {\"k\": %s}", "x = a[%s]", "x = a[%s:]", "x = a[:%s]", "x = a[::%s]", "x = a[1:2:%s]", "x = \"abcdef\"[0:3:%s]", "x = %s[0]", "x = %s[1:]",
+	"x = len(%s)", "add_key(k, %s)", "x += %s", "x = -%s", "x = 1 + %s", "x = %s + 1", "x = !%s", "x = (%s)", "x = %s in a", "x = 1 in %s", "a[%s] = 1",
+	"a[0][%s] = 1", "if 1 { for e in [1] { x = a[::%s] } }", "x = a[%s][::%s]", "x = 1 == %s", "x = 1 && %s"}
+
+func (k c01) runMalformed(c *mon.Ctx, workload string, i int64) {
+	var texts []string
+	var label string
+	if workload == "malformed-table" {
+		hole := c01Holes[int(i)%len(c01Holes)]
+		off := c08BadV1[int(i)/len(c01Holes)]
+		label = off[0]
+		texts = []string{"a = [1, 2, 3]\n" + strings.ReplaceAll(hole, "%s", off[1]) + "\np(x)\n"}
+	} else {
+		base := gt.ParenthesizeStmts(c08{}.base(c, false))
+		for _, sl := range gt.ExprSlots(base) {
+			orig := sl.Get()
+			off := c08BadV1[c.R.Intn(len(c08BadV1))]
+			sl.Set(c08Offender(off[1]))
+			texts = append(texts, gt.Print(base, nil))
+			sl.Set(orig)
+		}
+	}
+	for _, text := range texts {
+		info := map[string]any{"main.p": text, "offender": label}
+		var loadPanic any
+		var script *scriptT
+		func() {
+			defer func() { loadPanic = recover() }()
+			ok, _ := drive.LoadV1(map[string]string{"main.p": text})
+			script = ok["main.p"]
+		}()
+		c.Eval(1)
+		c.Nontrivial(text)
+		if loadPanic != nil {
+			c.Violate("load-panic", fmt.Sprintf("loading panicked: %v\n%s", loadPanic, text), info)
+			return
+		}
+		if script == nil {
+			c.Count("malformed_rejected_at_load", 1)
+			continue
+		}
+		c.Count("malformed_accepted_and_run", 1)
+		for v := 0; v < 2; v++ {
+			pt, desc := hostilePoint(c, v)
+			rs := &drive.RunState{Budget: 60000}
+			var ro drive.Outcome
+			drive.CaptureStdout(func() { ro = drive.RunV1(script, pt, rs) })
+			c.Eval(1)
+			if ro.Panic != nil {
+				info["point"] = desc
+				c.Violate("run-panic:"+panicSite(ro.Stack), fmt.Sprintf("a script accepted at load time panicked when run: %v\n%s\n--- main.p\n%s--- point: %s", ro.Panic, firstN(ro.Stack, 24), text, desc), info)
+				return
+			}
+		}
 	}
 }
 
@@ -214,6 +280,9 @@ func (c01) build(c *mon.Ctx, workload string, i int64) (main []*gt.T, lib []*gt.
 }
 
 func (k c01) Describe(c *mon.Ctx, workload string, i int64) any {
+	if strings.HasPrefix(workload, "malformed-") {
+		return map[string]any{"workload": workload, "index": i}
+	}
 	m, l := k.build(c, workload, i)
 	return map[string]any{"main.p": gt.Print(gt.ParenthesizeStmts(m), nil), "lib.p": gt.Print(gt.ParenthesizeStmts(l), nil)}
 }
@@ -239,6 +308,10 @@ func reached(l []*gt.T) (slice, index, call, compound, loop bool) {
 }
 
 func (k c01) Run(c *mon.Ctx, workload string, i int64) {
+	if strings.HasPrefix(workload, "malformed-") {
+		k.runMalformed(c, workload, i)
+		return
+	}
 	m, l := k.build(c, workload, i)
 	m, l = gt.ParenthesizeStmts(m), gt.ParenthesizeStmts(l)
 	srcs := map[string]string{"main.p": gt.Print(m, nil), "lib.p": gt.Print(l, nil)}
